@@ -126,9 +126,9 @@ It is NOT `floor(a / b)` computed in doubles, and not `⌊a/b⌋` of the exact q
 
 /-- `|x| = m · 2^e` for a finite double -/
 def fDecode (x : Float) : Nat × Int :=
-  let b := x.toBits.toNat % 2 ^ 63
-  let frac := b % 2 ^ 52
-  let bexp := b / 2 ^ 52
+  let b : Nat := x.toBits.toNat % 2 ^ 63
+  let frac : Nat := b % 2 ^ 52
+  let bexp : Nat := b / 2 ^ 52
   if bexp = 0 then (frac, -1074) else (frac + 2 ^ 52, (bexp : Int) - 1075)
 
 /-- C `fmod` for finite `a`, finite non-zero `b` (exact; sign of the dividend) -/
